@@ -331,18 +331,28 @@ func c18RunLimit(m *vk.M, idx int, sc c18LimScn) bool {
 	deadline := time.Now().Add(c18Watchdog)
 	lastProg := int64(-1)
 	drains := 0
-	tick := time.NewTicker(150 * time.Microsecond)
-	defer tick.Stop()
+	// poll interval: 150us while things move, doubled (up to 20ms) after every drain that
+	// brought no progress, so that a descheduled client does not flood the history
+	const basePoll = 150 * time.Microsecond
+	poll := basePoll
+	timer := time.NewTimer(poll)
+	defer timer.Stop()
 loop:
 	for {
 		select {
 		case <-done:
 			break loop
-		case <-tick.C:
+		case <-timer.C:
 		}
 		p := atomic.LoadInt64(&progress)
-		if atomic.LoadInt32(&parked) > 0 && p == lastProg && drains < 200 {
+		if p != lastProg {
+			poll = basePoll
+		}
+		if atomic.LoadInt32(&parked) > 0 && p == lastProg && (sc.Timed || !sc.Balanced) {
 			drains++
+			if poll *= 2; poll > 20*time.Millisecond {
+				poll = 20 * time.Millisecond
+			}
 			got := false
 			if sc.Timed {
 				call := vk.Seq()
@@ -362,6 +372,7 @@ loop:
 			}
 		}
 		lastProg = p
+		timer.Reset(poll)
 		if time.Now().After(deadline) {
 			m.Inconclusive("case %d (%s): clients still parked after %v and %d drain operations", idx, name, c18Watchdog, drains)
 			return false
